@@ -29,6 +29,7 @@ type Op struct {
 	Kind   string `json:"kind,omitempty"`   // add: mock | failing | v1 | v2
 	Filter int    `json:"filter,omitempty"` // add: 0 = all mailboxes, else mailbox index+1
 	N      int    `json:"n,omitempty"`      // failing: fail at n-th event
+	Mix    int    `json:"mix,omitempty"`    // burst: 0 stored events only; 1, 2 alternate with deletions of the message just stored (2: the odd ones are the deletions)
 }
 
 type Case struct {
@@ -63,7 +64,7 @@ var opGen = rapid.Custom(func(t *rapid.T) Op {
 	case "release":
 		return Op{K: "release"}
 	}
-	return Op{K: "burst", Box: rapid.IntRange(0, 2).Draw(t, "box")}
+	return Op{K: "burst", Box: rapid.IntRange(0, 2).Draw(t, "box"), Mix: rapid.IntRange(0, 2).Draw(t, "mix")}
 })
 
 var prop = hx.Prop[Case]{
@@ -85,7 +86,7 @@ var prop = hx.Prop[Case]{
 		c := Case{History: rapid.SampledFrom([]int{0, 1, 2, 3, 5, 8}).Draw(t, "history"), Ops: ops, NoExclude: rapid.IntRange(0, 19).Draw(t, "noexclude") == 0}
 		if c.NoExclude {
 			// make sure the situation arises: a fresh v1 or v2 listener stalls, then a burst
-			pre := []Op{{K: "add", Kind: rapid.SampledFrom([]string{"v1", "v2"}).Draw(t, "stallkind"), N: 1}, {K: "stall", L: 2}, {K: "burst", Box: 0}}
+			pre := []Op{{K: "add", Kind: rapid.SampledFrom([]string{"v1", "v2"}).Draw(t, "stallkind"), N: 1}, {K: "stall", L: 2}, {K: "burst", Box: 0, Mix: rapid.IntRange(0, 2).Draw(t, "premix")}}
 			at := rapid.IntRange(2, len(c.Ops)).Draw(t, "stallat")
 			c.Ops = append(append(append([]Op{}, c.Ops[:at]...), pre...), c.Ops[at:]...)
 			if c.History == 0 {
@@ -559,7 +560,17 @@ func run(c Case) *hx.Outcome {
 					}
 				}
 				done := make(chan struct{})
-				go func() { dispatch(op.Box); close(done) }()
+				if op.Mix > 0 && (k+op.Mix)%2 == 0 && len(dispatched) > 0 && c.History > 0 {
+					// a deletion of the message stored last (so that the event that overflows a
+					// stalled listener's buffer is, in some cases, a deletion)
+					e := ev{true, dispatched[len(dispatched)-1].mailbox, dispatched[len(dispatched)-1].id}
+					gone[e.mailbox+"/"+e.id] = true
+					rebuild()
+					broadcast(e)
+					go func() { hub.Delete(e.mailbox, e.id); close(done) }()
+				} else {
+					go func() { dispatch(op.Box); close(done) }()
+				}
 				wait := hx.ReplyTimeout
 				if stalledOpen {
 					wait = time.Second
